@@ -205,3 +205,36 @@ pub fn instrument(b: &mut Built, ch: &mut Ch, nprobes: usize, pref: ProbePref, r
     });
     rows
 }
+
+/// Position of every item within the evaluation of its source row.
+/// `tags[i]` is the tag of item i if it is a row, None if it is an error item (which still
+/// occupies its position in the expansion it interrupted). Returns, per item, (row id,
+/// position within the evaluation) where that can be told.
+pub fn positions(tags: &[Option<i64>], rows: &BTreeMap<usize, RowInfo>) -> Vec<Option<(usize, usize)>> {
+    let mut out = vec![None; tags.len()];
+    let mut i = 0;
+    while i < tags.len() {
+        // the evaluation starting at i takes its tag from the first row among its items; an
+        // evaluation that starts with an error item cannot be told apart from a single error
+        let Some(tag) = tags[i] else {
+            i += 1;
+            continue;
+        };
+        let Some(info) = rows.get(&((tag - 1) as usize)) else {
+            i += 1;
+            continue;
+        };
+        let g = info.group.max(1);
+        let mut p = 0;
+        while p < g && i + p < tags.len() {
+            match tags[i + p] {
+                Some(t) if t != tag => break,
+                Some(_) => out[i + p] = Some(((tag - 1) as usize, p)),
+                None => {}
+            }
+            p += 1;
+        }
+        i += p.max(1);
+    }
+    out
+}
